@@ -17,7 +17,7 @@ CLAIMS = {
          'loops, no iterate-while-mutate over fd_events, one-shot-before-callback, epoll/select sibling agreement', '§4 C03',
          're-entrancy/invalidation rules + exception-escape analysis over clang AST/CFG'),
  'C04': ('A6 callee allow-list of the async signal handler, chaining/fan-out shape, save/restore pairing of the disposition, signal table only under '
-         'lock + blocked signals, one-shot ordering, subscriber snapshot re-validation, enable() rollback', '§4 C04',
+         'lock + blocked signals, one-shot ordering, subscriber snapshot re-validation, enable() rollback, idempotent subscription (unique-key subscriber set or enable() guard)', '§4 C04',
          'callee allow-list + pairing/path rules over clang AST/CFG'),
  'C05': ('A1 lockset/thread-role race freedom incl. cond-var flag discipline (static form of "cleanup terminates"), A3 take→mark-running atomicity, '
          'completion protocol (body on worker role, main_cb only via runInLoop after the body), cancel/cleanup shapes, join protocol, priority/FIFO shape, '
@@ -26,7 +26,7 @@ CLAIMS = {
          'append, filter-before-output, truncation marking agreement over sinks, back-end re-framing guards, roll-over/disable ordering, no re-logging from sinks', '§4 C09',
          'lockset + who-may-call + CFG path rules over clang AST/CFG'),
  'C10': ('A1 pairwise common-lock race freedom with producer/backend/owner roles and thread phases, whole-append critical section incl. every external '
-         'appendLockless caller, FIFO hand-over and reset-after-callback, back-pressure guards, cleanup/quit-path flush order, acyclic lock order', '§4 C10',
+         'appendLockless caller, one critical section for a whole datum, FIFO hand-over and reset-after-callback, back-pressure guards, cleanup/quit-path flush order, acyclic lock order and no wait-for cycle (no role blocks on a mutex another role holds while waiting for it)', '§4 C10',
          'lockset + lock-order + CFG path rules over clang AST/CFG'),
  'C11': ('hook-balance on every path of initialize/start (own hook matched by state advance or rollback, children rolled back in reverse), gated single '
          'stop/cleanup hooks, pre-order/reverse-order iteration shape, required-only abort, Main()/Start()/Stop() sequencing', '§4 C11',
@@ -38,19 +38,19 @@ CLAIMS.update({
          'synchronous token free + deferred record free, one-shot ordering, TimerEventImpl enabled<=>registered', '§4 C02',
          'typestate dataflow (heap protocol) + CFG path rules over clang AST/CFG'),
  'C06': ('write-arming invariant (running and queued => write event armed) decided at every state-changing site, remainder arithmetic shape of send(), '
-         'completion only when drained, receive-side commit/spill shape, destruction only through deferred tasks at the in-callback sites', '§4 C06',
+         'completion only when drained, receive-side commit/spill shape, destruction only through deferred tasks at the in-callback sites; plus the util::Buffer window arithmetic (C07 rules run as C06.B1-B4, the send/receive queues are Buffers)', '§4 C06, §10.6',
          'typestate-style site rules + ownership (deferred delete) rules over clang AST/CFG'),
  'C12': ('A8 no exception escapes the receive path (call-graph scan with try map, presence proofs by reaching definitions), fail verdicts only on a complete '
-         'line and cursor-update shapes, no dispatch after a close-marked request, single commit per request by construction, in-order flush shape', '§4 C12',
+         'line and cursor-update shapes, no dispatch after a close-marked request, single commit per request by construction, in-order flush shape, boundary agreement of every comparison with close_index, no read-side shutdown while responses are owed (teardown chain re-derived each run), no unbounded stack allocation on the receive path', '§4 C12',
          'exception-escape analysis + reaching definitions + CFG path rules over clang AST/CFG'),
  'C13': ('A8 no exception escapes the input path (telnet, raw TCP, terminal), no access to an empty history, deferred tasks capture tokens not pooled pointers, '
-         'cursor-update guards, prompt/history-cap shape, telnet framing length tests, bounded history recursion', '§4 C13',
+         'cursor-update guards, prompt/history-cap shape, telnet framing length tests, bounded history recursion, no unbounded stack allocation (VLA/alloca) on the input path; range/presence proofs require the container to be unchanged between proof and use', '§4 C13',
          'exception-escape analysis + ownership/deferred-capture + CFG path rules over clang AST/CFG'),
  'C14': ('A8 framing/dispatch never throw (parse only inside CatchThrow, typed json access under type tests), no narrow length sum, fetchNoCopy result proven '
          'non-null or tested, resumable-framing return discipline, complete-then-erase with sibling agreement, no container handle live across the user callback, '
-         'bounded recursion, FindEndPos scan guards', '§4 C14', 'exception-escape + input-hardening + re-entrancy rules over clang AST/CFG'),
+         'bounded recursion, FindEndPos scan guards, TimeoutMonitor count/timer protocol (count changes only with the ring, timer disabled only on a fresh zero test, nothing decided from a pre-callback value), no unbounded stack allocation', '§4 C14', 'exception-escape + input-hardening + re-entrancy rules over clang AST/CFG'),
  'C15': ('every datagram-filled local initialised or status-checked, reported values control dependent on successful reads, bounded compression recursion, '
-         'deserializer bounds-check/width/advance agreement over all readers, complete-then-erase of lookups, no exception on the datagram path', '§4 C15',
+         'deserializer bounds-check/width/advance agreement over all readers, complete-then-erase of lookups, no exception on the datagram path, TimeoutMonitor count/timer protocol, no unbounded stack allocation', '§4 C15',
          'input-hardening (def/use + guard) rules + sibling agreement over clang AST/CFG'),
  'C16': ('re-entrancy counter bracket around every user function (abstract counter dataflow), state writes only behind the re-entrancy test, transition step '
          'order, delegation/handler/route precedence with first-match scan shape, enter/exit and sub-machine start/stop pairing, definition calls rejected while running', '§4 C16',
@@ -64,13 +64,13 @@ CLAIMS.update({
          'notifications only as cancellable deferred tasks cancelled by stop/reset/destructor, base lifecycle gates and single onFinal, held-back child results in '
          'serial composites, reset-before-rerun', '§4 C17', 'sibling-agreement matrix + must-call/path rules over clang AST/CFG'),
  'C18': ('waiters re-register before every wait, wake-up conditional only on the waiter queue, cancellation test between wait and resource, broadcast/condition '
-         'post shapes, scheduler cleanup/switch/schedule shapes', '§4 C18', 'CFG path rules over clang AST/CFG (templates via explicit instantiation TU)'),
+         'post shapes, scheduler cleanup/switch/schedule shapes, every routine-destroying site resumes the joiner, cancel exit withdraws the waiter token and passes on a wake-up addressed to it, success exit only through a re-test of the resource after wait()', '§4 C18', 'CFG path rules over clang AST/CFG (templates via explicit instantiation TU)'),
  'C19': ('constant tables equal tables generated from the standards\' formulae (Base64, CRC-16/32, AES S-box/inverse/Rcon, MD5 constants/shifts/order/state/padding, '
          'scalable-integer ranges), every constant-table subscript in range by interval evaluation, serializer/deserializer width and byte-order agreement, '
-         'capacity test before stores, digit validation', '§4 C19', 'constant-table conformance + interval evaluation + sibling agreement over clang AST/CFG'),
+         'capacity test before stores, digit validation, no carry lost in the 16-bit one\'s-complement checksum (interval abstract interpretation of the accumulator)', '§4 C19', 'constant-table conformance + interval evaluation/abstract interpretation + sibling agreement over clang AST/CFG'),
  'C20': ('seconds->milliseconds conversion wide enough for the operand\'s type range, re-arm before callback, next instant depends on max(now, previous target), '
-         'time-zone symmetry, running<=>armed, out-parameter/strictly-after discipline of every calculateNextLocalTimeSec', '§4 C20',
-         'interval evaluation + data-dependence/path rules over clang AST/CFG'),
+         'time-zone symmetry, running<=>armed, out-parameter/strictly-after discipline of every calculateNextLocalTimeSec, day scans offer a full period of strictly-future days (interval abstract interpretation of the loop counter)', '§4 C20',
+         'interval evaluation/abstract interpretation + data-dependence/path rules over clang AST/CFG'),
 })
 CLAIMS['C07'] = ('index arithmetic of the byte buffer decided by linear constant propagation (every field an affine form over its entry value, relational '
                  'merges): 0 <= read <= write <= size re-established on every path class of every index-writing method; every internal memcpy/memmove inside source '
@@ -115,7 +115,7 @@ m = {
  'checks': checks,
  'not_applicable': na,
  'notes': 'exit 0 = all obligations hold; exit 1 + VIOLATION line = a rule instance fails at a named site (replay file = JSON report); exit 2 = analysis broken '
-          '(anchor vanished / instance floor not met / unit failed to parse). fixtures/mutations/<id>/*.patch are the checker self-test mutants (tools/mutest.py).',
+          '(anchor vanished / instance floor not met / unit failed to parse). fixtures/mutations/<id>/*.patch are the checker self-test mutants and fixtures/equivalent/<id>/*.patch behaviour-preserving variants that must stay silent (tools/mutest.py; both run by the thorough tier); seeded/<id>/ holds independent seeded changes with demonstrations (tools/recheck_seeds.py).',
 }
 json.dump(m, open(V + '/MANIFEST.json', 'w'), indent=1)
 print('claimed:', sorted(CLAIMS), 'n/a:', len(na))
